@@ -331,6 +331,16 @@ Fixpoint run (w : world) (st : state) (h : list event) : state * list result :=
   | e :: r => let '(st1, x) := step w st e in let '(st2, xs) := run w st1 r in (st2, x :: xs)
   end.
 
+(* ---------- the DEFINITION of an application class (round 7): `class X(<Copyable,> RemoteCopy): copytype = ...; typeToCopy = ...;
+   <copyableRegistry = private dict>` runs the metaclass RemoteCopyClass.__init__ (translated: metaclass_registers).  It is the
+   registration events it amounts to -- none when the class opts out (copytype = None or ""), or when the definition fails
+   (no copytype at all: RuntimeError). *)
+Definition define_class (ct : ctattr) (ttc : option string) (priv empty : bool) (cls : Z) : list event :=
+  match metaclass_registers ct ttc with
+  | McRegister n => [if priv then RegisterCopyPriv n cls empty else RegisterCopy n cls]
+  | McSkip | McError => []
+  end.
+
 Definition sent_of (rs : list result) : list (cid * Z * Z) := List.concat (map r_sent rs).
 
 (* ---------- projections used by the locality theorems *)
